@@ -106,9 +106,96 @@ def sweep_structure(ctx):
     ctx.count("sweep_structure_scripts", n)
 
 
+def dp_correspondence(ctx):
+    """The assignment model of the data-point sweep (Model/DpMove.v, the one C04_dp_move_invariant is about) against the
+    exact outcome distribution of the real DataPointSampler.sample_tree, from every tree over 3 data points."""
+    import itertools
+    import math
+    from fractions import Fraction
+
+    from phyclone.mcmc.gibbs_mh import DataPointSampler
+
+    from ..enumrng import enumerate_outcomes
+    from ..kernels import make_tree_dist
+    from ..trees import all_specs, build_tree, make_data, rational_values, spec_nodes
+
+    def qlit(v):
+        fr = Fraction(v)
+        return "(%d#%d)%%Q" % (fr.numerator, fr.denominator)
+
+    vals = rational_values(ctx.rng, 3, 1, 3)
+    items = []
+    specs = all_specs(range(3), outliers=True)
+    ctx.rng.shuffle(specs)
+    for spec in specs[: (14 if ctx.quick else 42)]:
+        for on in (True, False):
+            if not on and spec[1]:
+                continue
+            data = make_data(vals, outlier_prob=0.2 if on else 0.0)
+            td = make_tree_dist(ctx.rng.choice([0.3, 1.0, 2.5]))
+            tree0 = build_tree(spec, data)
+            names = list(tree0.nodes)
+            if not names:
+                continue
+            cid = {nm: i for i, nm in enumerate(names)}
+            parent = {nm: tree0.get_parent(nm) for nm in names}
+            pts = sorted(d.idx for d in tree0.data)
+
+            def assignment(t):
+                lab = t.labels
+                return tuple((p, None if lab[p] == t.outlier_node_name else cid[lab[p]]) for p in pts)
+
+            def coq_state(a):
+                return "[" + "; ".join("(%d, %s)" % (p, "None" if h is None else "Some %d" % h) for p, h in a) + "]"
+
+            def fn(r):
+                s = DataPointSampler(td, r, outliers=on)
+                return assignment(s.sample_tree(build_tree(spec, data)))
+
+            dist, npaths, _ = enumerate_outcomes(fn)
+            # target table over every assignment that leaves no clone empty (same shape)
+            gt = []
+            for hs in itertools.product(list(range(len(names))) + ([None] if on else []), repeat=len(pts)):
+                if any(all(h != c for h in hs) for c in range(len(names))):
+                    continue
+                from phyclone.tree import Tree
+
+                t = Tree(data[0].grid_size)
+                made = {}
+
+                def mk(nm):
+                    if nm in made:
+                        return made[nm]
+                    kids = [mk(k) for k in names if parent[k] == nm]
+                    made[nm] = t.create_root_node(children=kids, data=[data[p] for p, h in zip(pts, hs) if h == cid[nm]])
+                    return made[nm]
+
+                for nm in names:
+                    if parent[nm] == "root":
+                        mk(nm)
+                for p, h in zip(pts, hs):
+                    if h is None:
+                        t.add_data_point_to_outliers(data[p])
+                gt.append((tuple(zip(pts, hs)), math.exp(float(td.log_p_one(t)))))
+            g = "[" + "; ".join("(%s, %s)" % (coq_state(a), qlit(v)) for a, v in gt) + "]"
+            obs = "[" + "; ".join("(%s, %s)" % (coq_state(a), qlit(p)) for a, p in sorted(dist.items(), key=lambda kv: repr(kv[0]))) + "]"
+            items.append("chk_dp [%s] %s %s [%s] %s %s" % ("; ".join(str(i) for i in range(len(names))), "true" if on else "false", g,
+                                                        "; ".join(str(p) for p in pts), coq_state(assignment(tree0)), obs))
+            ctx.case(key=("dpcorr", spec, on), nontrivial=len(dist) > 1)
+    ok, bad, detail = coq.coq_eval_bool_cases(ctx, "dpcorr", "From PV Require Import Model.DpCases.\nOpen Scope nat_scope.", items, shard=6)
+    ctx.extra["coq_dp_corr_cases"] = len(items)
+    if not ok:
+        ctx.broken_tie("C04 data-point correspondence file did not evaluate", detail)
+    else:
+        ctx.obligation("corr_dp_sweep_model_eq_impl_%d_trees" % len(items), not bad)
+        if bad:
+            ctx.broken[-1]["detail"] = {"failing": len(bad), "first_item": items[bad[0]][:800]}
+
+
 def run(ctx):
     coq.check_property_file(ctx)
     sweep_structure(ctx)
+    dp_correspondence(ctx)
     ctx.rule = (
         "exact transition matrix (every random outcome enumerated) of DataPointSampler.sample_tree (outlier option off/on, library and run wiring), "
         "PruneRegraphSampler.sample_tree and ParticleGibbsSubtreeSampler.sample_tree from EVERY start tree over 2-3 (thorough: 4 for the "
